@@ -32,9 +32,9 @@ from kv.harness.op import make_settings
 from kv.runner import CheckResult, parallel_map, run_groups
 from kv.world import KEX, FakeResponse, FakeSession, Request, World, status_body
 
-RETRYABLE = {'500', '503', '403', '429', '429:ra0', '429:ra2', '429:ra9', '429:rs2', 'timeout', 'conn'}
+RETRYABLE = {'500', '503', '403', '429', '429:ra0', '429:ra2', '429:ra9', '429:rs2', 'timeout', 'conn', 'disc', 'oserr'}
 TERMINAL = {'400', '404', '409', '422'}
-ALPHABET = ['ok', '500', '503', '403', '429', '429:ra0', '429:ra2', '429:ra9', '429:rs2', '400', '404', '409', '422', 'timeout', 'conn']
+ALPHABET = ['ok', '500', '503', '403', '429', '429:ra0', '429:ra2', '429:ra9', '429:rs2', '400', '404', '409', '422', 'timeout', 'conn', 'disc', 'oserr']
 
 
 class Reiterable:
@@ -67,7 +67,8 @@ def api_retry_ref(seq: list[str], backoffs: list[float], enforce: bool) -> tuple
         b = backoffs[i] if i < len(backoffs) else None
         if b is None:
             return times, {'500': 'APIServerError', '503': 'APIServerError', '403': 'APIForbiddenError', 'timeout': 'TimeoutError',
-                           'conn': 'ClientConnectionError'}.get(kind, 'APITooManyRequestsError')
+                           'conn': 'ClientConnectionError', 'disc': 'ServerDisconnectedError', 'oserr': 'ClientOSError',
+                           'payload': 'ClientPayloadError'}.get(kind, 'APITooManyRequestsError')
         wait = b
         if kind.startswith('429:'):
             ra = int(kind.split(':')[1][2:])
@@ -122,6 +123,12 @@ class ScriptedSession(FakeSession):
             return FakeResponse(status=200, headers={}, body={'kind': 'KopfExample', 'metadata': {'name': 'a'}}, url=url, method=method)
         if kind == 'conn':
             raise aiohttp.ClientConnectionError('connection refused')
+        if kind == 'disc':       # the server (or a balancer) closed the connection after the request was sent, before any byte of the answer
+            raise aiohttp.ServerDisconnectedError()
+        if kind == 'oserr':      # connection reset by peer
+            raise aiohttp.ClientOSError(104, 'Connection reset by peer')
+        if kind == 'payload':    # the answer broke off in the middle
+            raise aiohttp.ClientPayloadError('Response payload is not completed')
         if kind == 'timeout':
             raise asyncio.TimeoutError()
         code, _, extra = kind.partition(':')
